@@ -20,7 +20,7 @@ use crate::core::{guarded, panic_loc, Acc, Ctx};
 use flac_codec::metadata::Cuesheet;
 use serde_json::{json, Value};
 
-pub const RULE: &str = "reference-model generation: abstract layout -> cue text (own renderer) -> Cuesheet::parse(588*total_sectors) -> compare every field with own arithmetic ((mm*60+ss)*75+ff)*588, then display() -> parse -> same track/index layout. Block P: EVERY layout with 1..3 tracks x per-track index shape {01; 01-02; 01-03; 00-01; 00-02} x every gap between consecutive positions and the final gap to the lead-out drawn from the tier's gap menu, first position 00:00:00, x attribute patterns (quick: FLAGS PRE on all/no tracks x ISRC on all/no tracks x CATALOG on/off, plus two alternating per-track patterns = 10; thorough: nothing / everything / the two alternating patterns = 4, the rest being subsumed by block A), canonical surface. Block A: every layout of block P over the quick gap menu (quick: <=2 tracks, thorough: <=3 tracks) x EVERY per-track assignment of FLAGS PRE / ISRC x CATALOG on/off. Block S: every track/index shape (<=3 tracks) x 10 attribute patterns x gap vectors (each menu value uniformly + cyclic mixes) x EVERY surface form: indentation {none, 2/4 blanks, tabs} x line ends {LF, CRLF, LF without final newline, CRLF without final newline} x CATALOG/ISRC {bare, quoted} x decoration {no other lines, FILE line, REM+TITLE+PERFORMER+FILE header and per-track TITLE/PERFORMER/REM/blank lines} x {FLAGS before ISRC, ISRC before FLAGS} x track numbers {zero padded, unpadded} x {no trailing blank, trailing blank on every line} = 576 forms. Block X (boundary singletons x 4 surfaces): 99 tracks (1 index each; mixed shapes), 99 and 100 indices in one track (first, second, all of three tracks), 99 tracks x 100 indices, minutes {99,100,101,255,256,999,1000,65535,65536,2^32,6*10^12} reached from mm-1:59:74, pre-gap on the first track, ISRC written with dashes, FLAGS lines carrying several flags";
+pub const RULE: &str = "reference-model generation: abstract layout -> cue text (own renderer) -> Cuesheet::parse(588*total_sectors) -> compare every field with own arithmetic ((mm*60+ss)*75+ff)*588, track_byte_ranges for 7 (channels, depth) pairs = sample ranges × channels × ceil(depth/8), then display() -> parse -> same track/index layout. Block P: EVERY layout with 1..3 tracks x per-track index shape {01; 01-02; 01-03; 00-01; 00-02} x every gap between consecutive positions and the final gap to the lead-out drawn from the tier's gap menu, first position 00:00:00, x attribute patterns (quick: FLAGS PRE on all/no tracks x ISRC on all/no tracks x CATALOG on/off, plus two alternating per-track patterns = 10; thorough: nothing / everything / the two alternating patterns = 4, the rest being subsumed by block A), canonical surface. Block A: every layout of block P over the quick gap menu (quick: <=2 tracks, thorough: <=3 tracks) x EVERY per-track assignment of FLAGS PRE / ISRC x CATALOG on/off. Block S: every track/index shape (<=3 tracks) x 10 attribute patterns x gap vectors (each menu value uniformly + cyclic mixes) x EVERY surface form: indentation {none, 2/4 blanks, tabs} x line ends {LF, CRLF, LF without final newline, CRLF without final newline} x CATALOG/ISRC {bare, quoted} x decoration {no other lines, FILE line, REM+TITLE+PERFORMER+FILE header and per-track TITLE/PERFORMER/REM/blank lines} x {FLAGS before ISRC, ISRC before FLAGS} x track numbers {zero padded, unpadded} x {no trailing blank, trailing blank on every line} = 576 forms. Block X (boundary singletons x 4 surfaces): 99 tracks (1 index each; mixed shapes), 99 and 100 indices in one track (first, second, all of three tracks), 99 tracks x 100 indices, minutes {99,100,101,255,256,999,1000,65535,65536,2^32,6*10^12} reached from mm-1:59:74, pre-gap on the first track, ISRC written with dashes, FLAGS lines carrying several flags";
 pub const ASSUMPTIONS: &[&str] = &[
     "well-formed = what the crate's line grammar accepts: one blank between keyword and argument, keywords in upper case, one FILE, tracks numbered from 1, AUDIO tracks; inner multiple blanks / tabs, lower-case keywords, a byte-order mark and multi-FILE sheets are outside the accepted grammar and not generated",
     "surface forms are crossed with every track/index shape and attribute pattern but only with uniform/cyclic gap vectors (block S); every gap combination is crossed with the canonical surface (block P): the parser tokenises each line independently of the others, so surface form and position arithmetic do not interact",
@@ -276,6 +276,15 @@ fn check(l: &Layout, s: &Surface) -> Result<(), (String, String)> {
         if ranges != want {
             let pg = if l.tracks.iter().any(|t| t.indices[0].0 == 0) { "pregap" } else { "nopregap" };
             return Err((format!("track-ranges|{pg}"), format!("track_sample_ranges() = {ranges:?}, expected {want:?}")));
+        }
+        // the same ranges in bytes of decoded PCM (every sample padded to whole bytes, as all of the crate's byte front-ends do)
+        for (ch, bps) in [(2u8, 16u32), (1, 8), (2, 24), (8, 32), (2, 12), (3, 20), (8, 7)] {
+            let m = ch as u64 * bps.div_ceil(8) as u64;
+            let wantb: Vec<std::ops::Range<u64>> = want.iter().map(|r| r.start.saturating_mul(m)..r.end.saturating_mul(m)).collect();
+            let gotb: Vec<std::ops::Range<u64>> = c.track_byte_ranges(ch, bps).collect();
+            if gotb != wantb {
+                return Err((format!("track-byte-ranges|{}", if bps % 8 == 0 { "whole-bytes" } else { "padded-depth" }), format!("track_byte_ranges({ch}, {bps}) = {gotb:?}, expected {wantb:?} (sample ranges × {ch} × {} bytes)", bps.div_ceil(8))));
+            }
         }
         // export and re-import
         let exported = c.display("x.flac").to_string();
